@@ -1,4 +1,5 @@
 import Pfst.Coerce
+import Pfst.CoerceArgs
 
 /-!
 Lemmas about the coercion model: the leaf sequence is conserved by `toPattern` / `toExpr` (mutual structural induction
@@ -778,5 +779,125 @@ theorem dictGo_routes' : ∀ (items : List Expr) (seen : Bool), plainE items = t
   | .unop _ _ :: _, _, _ => by simp [dictGo]
   | .other _ _ :: _, _, _ => by simp [dictGo]
 end
+
+/-! ### `arguments` re-read as type parameters / class-pattern attributes: leaf order is kept -/
+
+theorem leavesTs_append (a b : List TParam) : leavesTs (a ++ b) = leavesTs a ++ leavesTs b := by
+  induction a with
+  | nil => simp [leavesTs]
+  | cons p t ih => simp [leavesTs, ih, List.append_assoc]
+
+theorem tvPass_leaves : ∀ ps : List Param, hasDefault ps = false → leavesTs (tvPass ps) = leavesPs ps
+  | [], _ => by simp [tvPass, leavesTs, leavesPs]
+  | p :: rest, h => by
+    simp only [hasDefault, Bool.or_eq_false_iff] at h
+    have hd : p.dflt = none := by cases hp : p.dflt <;> simp [hp] at h ⊢
+    simp [tvPass, leavesTs, leavesPs, TParam.leaves, Param.leaves, hd, optLeaves, tvPass_leaves rest h.2]
+
+theorem starPart_leaves (mk : String → TParam) (hmk : ∀ n, (mk n).leaves = [.name n]) (o : Option Param)
+    (v : List TParam) (h : starPart mk o = some v) : leavesTs v = optParamLeaves o := by
+  cases o with
+  | none => simp [starPart] at h; subst h; simp [leavesTs, optParamLeaves]
+  | some p =>
+    simp only [starPart] at h
+    split at h
+    · simp at h
+    · next ha =>
+      simp at h; subst h
+      have : p.ann = none := by cases hp : p.ann <;> simp [hp] at ha ⊢
+      simp [leavesTs, optParamLeaves, hmk, this, optLeaves]
+
+theorem argsToTypeParams_leaves' (a : Arguments) (ts : List TParam) (h : argsToTypeParams a = some ts) :
+    leavesTs ts = a.leaves := by
+  unfold argsToTypeParams at h
+  split at h
+  · simp at h
+  · next hpos =>
+    split at h
+    · simp at h
+    · next hdef =>
+      split at h
+      · simp at h
+      · split at h
+        · next v k hv hk =>
+          simp at h; subst h
+          have hp : a.posonly = [] := by simpa using hpos
+          simp only [Bool.or_eq_true, not_or, Bool.not_eq_true] at hdef
+          simp [Arguments.leaves, hp, leavesPs, leavesTs_append, tvPass_leaves _ hdef.1, tvPass_leaves _ hdef.2,
+                starPart_leaves _ (by intro n; rfl) _ _ hv, starPart_leaves _ (by intro n; rfl) _ _ hk]
+        · simp at h
+
+theorem attrGo_all_defaults (fmt : Bool) : ∀ (l : List Param) (ps ks : List Pattern),
+    l.all (fun q => q.dflt.isSome) = true → attrGo fmt l = some (ps, ks) → ps = []
+  | [], ps, ks, _, h => by simp [attrGo] at h; exact h.1
+  | p :: rest, ps, ks, hall, h => by
+    simp only [List.all_cons, Bool.and_eq_true] at hall
+    simp only [attrGo] at h
+    split at h
+    · simp at h
+    · cases hd : p.dflt with
+      | none => simp [hd] at hall
+      | some d =>
+        simp only [hd] at h
+        split at h
+        · simp at h
+        · split at h
+          · simp at h
+          · next ps' ks' hgo =>
+            simp at h
+            have := attrGo_all_defaults fmt rest ps' ks' hall.2 hgo
+            rw [← h.1]; exact this
+
+theorem attrGo_leaves (fmt : Bool) : ∀ (l : List Param) (ps ks : List Pattern),
+    defaultsSuffix l = true → attrGo fmt l = some (ps, ks) → leavesP ps ++ leavesP ks = leavesPs l
+  | [], ps, ks, _, h => by simp [attrGo] at h; obtain ⟨h1, h2⟩ := h; subst h1; subst h2; simp [leavesP, leavesPs]
+  | p :: rest, ps, ks, hs, h => by
+    simp only [defaultsSuffix, Bool.and_eq_true, Bool.or_eq_true] at hs
+    simp only [attrGo] at h
+    split at h
+    · simp at h
+    · next hann =>
+      have ha : p.ann = none := by cases hp : p.ann <;> simp [hp] at hann ⊢
+      cases hd : p.dflt with
+      | some d =>
+        simp only [hd] at h
+        split at h
+        · simp at h
+        · next pat hpat =>
+          split at h
+          · simp at h
+          · next ps' ks' hgo =>
+            simp at h; obtain ⟨h1, h2⟩ := h; subst h1; subst h2
+            have hall : rest.all (fun q => q.dflt.isSome) = true := by
+              rcases hs.1 with h0 | h0
+              · simp [hd] at h0
+              · exact h0
+            have hnil := attrGo_all_defaults fmt rest ps' ks' hall hgo
+            subst hnil
+            have ih := attrGo_leaves fmt rest [] ks' hs.2 hgo
+            simp only [leavesP, List.nil_append] at ih
+            simp [leavesP, leavesPs, Pattern.leaves, Param.leaves, ha, hd, optLeaves, toPattern_leaves' fmt d pat hpat, ih]
+      | none =>
+        simp only [hd] at h
+        split at h
+        · simp at h
+        · next ps' ks' hgo =>
+          simp at h; obtain ⟨h1, h2⟩ := h; subst h1; subst h2
+          have ih := attrGo_leaves fmt rest ps' ks' hs.2 hgo
+          simp [leavesP, leavesPs, Pattern.leaves, Param.leaves, ha, hd, optLeaves, unwild_wild, ← ih]
+
+theorem argsToAttrlikes_leaves' (fmt : Bool) (a : Arguments) (ps ks : List Pattern) (hs : defaultsSuffix a.args = true)
+    (h : argsToAttrlikes fmt a = some (ps, ks)) : leavesP ps ++ leavesP ks = a.leaves := by
+  unfold argsToAttrlikes at h
+  split at h
+  · simp at h
+  · next hc =>
+    simp only [Bool.or_eq_true, not_or, Bool.not_eq_true, Bool.not_eq_false'] at hc
+    obtain ⟨⟨⟨hv, hk⟩, hp⟩, hko⟩ := hc
+    have hv' : a.vararg = none := by cases hx : a.vararg <;> simp [hx] at hv ⊢
+    have hk' : a.kwarg = none := by cases hx : a.kwarg <;> simp [hx] at hk ⊢
+    have hp' : a.posonly = [] := by simpa using hp
+    have hko' : a.kwonly = [] := by simpa using hko
+    simp [Arguments.leaves, hv', hk', hp', hko', leavesPs, optParamLeaves, attrGo_leaves fmt a.args ps ks hs h]
 
 end Pfst.Coerce
